@@ -42,6 +42,7 @@ type GossipConfig struct {
 	PKeep   int
 	Budget  int
 	Leaves  bool
+	Rejoin  bool // an instance that left may be started again under its name (a new process)
 	DupProb int
 }
 
@@ -57,6 +58,7 @@ type gClaim struct {
 
 type gInst struct {
 	idx      int
+	gen      int // 0, or 1 for the process started again under the name of one that left
 	name     string
 	addr     string
 	sm       proxy.ShardManager
@@ -93,6 +95,9 @@ type GossipWorld struct {
 	cfg         GossipConfig
 	net         *fakeml.Network
 	inst        []*gInst
+	past        []*gInst // incarnations that left and were replaced by a new process of the same name
+	addrs       map[string]string
+	scc         config.ShardCountConfig
 	phase       int
 	viol        []Violation
 	faults      map[string]int
@@ -129,6 +134,7 @@ func NewGossipWorld(s *simrt.Sim) *GossipWorld {
 	c.Budget = []int{700, 350, 1400}[s.Draw(3)]
 	c.Leaves = s.Draw(3) == 2
 	c.DupProb = []int{0, 10, 30}[s.Draw(3)]
+	c.Rejoin = c.Leaves && s.Draw(2) == 1
 	w.cfg = c
 	s.SetPKeep(c.PKeep)
 	w.net = fakeml.NewNetwork()
@@ -142,25 +148,10 @@ func NewGossipWorld(s *simrt.Sim) *GossipWorld {
 	for i := 0; i < c.N; i++ {
 		addrs[fmt.Sprintf("n%d", i+1)] = fmt.Sprintf("proxy-n%d:7000", i+1)
 	}
-	scc := config.ShardCountConfig{Mode: config.ShardCountRouting, LocalShardCount: int32(c.Shards), RemoteShardCount: int32(c.Shards)}
+	w.addrs = addrs
+	w.scc = config.ShardCountConfig{Mode: config.ShardCountRouting, LocalShardCount: int32(c.Shards), RemoteShardCount: int32(c.Shards)}
 	for i := 0; i < c.N; i++ {
-		in := &gInst{idx: i, name: fmt.Sprintf("n%d", i+1), claims: map[ShardID]*gClaim{}, history: map[ShardID][]*gClaim{}, gotMsgs: map[string][]string{}, gotAcks: map[string][]int64{}}
-		in.addr = addrs[in.name]
-		mc := &config.MemberlistConfig{Enabled: true, NodeName: in.name, BindAddr: fmt.Sprintf("10.0.0.%d", i+1), BindPort: 7946, ProxyAddresses: addrs}
-		if i > 0 {
-			mc.JoinAddrs = []string{"10.0.0.1:7946"}
-		}
-		in.lifetime, in.cancel = context.WithCancel(context.Background())
-		in.sm = proxy.NewShardManager(mc, scc, encryption.TLSConfig{}, noopLoggers{})
-		none := &adminClient{name: "none", open: func(ctx context.Context) (adminservice.AdminService_StreamWorkflowReplicationMessagesClient, error) {
-			return nil, status.Error(codes.Unavailable, "no cluster in this world")
-		}}
-		obs := proxy.NewReplicationStreamObserver(noopLoggers{}.Get(""))
-		in.server = proxy.NewAdminServiceProxyServer("outboundAdminService", none, none, proxy.AdminServiceOverrides{}, []string{"outbound"},
-			obs.ReportStreamValue, scc, proxy.LCMParameters{},
-			proxy.RoutingParameters{OverrideShardCount: scc.LocalShardCount, RoutingLocalShardCount: scc.RemoteShardCount, DirectionLabel: "outbound"},
-			noopLoggers{}, in.sm, in.lifetime)
-		w.inst = append(w.inst, in)
+		w.inst = append(w.inst, w.newInst(i, 0))
 	}
 	// intra-proxy link: a stream opened towards a peer's proxy address terminates in that peer's real handler
 	seam.IntraClientFactory = func(target string) adminservice.AdminServiceClient {
@@ -199,6 +190,41 @@ func NewGossipWorld(s *simrt.Sim) *GossipWorld {
 		}}
 	}
 	return w
+}
+
+// newInst builds (does not start) instance number i; gen 1 is the process started again under
+// the name and addresses of one that has left - nothing is carried over.
+func (w *GossipWorld) newInst(i, gen int) *gInst {
+	c, addrs, scc := w.cfg, w.addrs, w.scc
+	in := &gInst{idx: i, gen: gen, name: fmt.Sprintf("n%d", i+1), claims: map[ShardID]*gClaim{}, history: map[ShardID][]*gClaim{}, gotMsgs: map[string][]string{}, gotAcks: map[string][]int64{}}
+	in.addr = addrs[in.name]
+	mc := &config.MemberlistConfig{Enabled: true, NodeName: in.name, BindAddr: fmt.Sprintf("10.0.0.%d", i+1), BindPort: 7946, ProxyAddresses: addrs}
+	if gen > 0 {
+		// a process that comes back is pointed at the whole deployment (its old seed may be gone)
+		for j := 0; j < c.N; j++ {
+			if j != i {
+				mc.JoinAddrs = append(mc.JoinAddrs, fmt.Sprintf("10.0.0.%d:7946", j+1))
+			}
+		}
+	} else if i > 0 {
+		mc.JoinAddrs = []string{"10.0.0.1:7946"}
+	}
+	in.lifetime, in.cancel = context.WithCancel(context.Background())
+	in.sm = proxy.NewShardManager(mc, scc, encryption.TLSConfig{}, noopLoggers{})
+	none := &adminClient{name: "none", open: func(ctx context.Context) (adminservice.AdminService_StreamWorkflowReplicationMessagesClient, error) {
+		return nil, status.Error(codes.Unavailable, "no cluster in this world")
+	}}
+	obs := proxy.NewReplicationStreamObserver(noopLoggers{}.Get(""))
+	in.server = proxy.NewAdminServiceProxyServer("outboundAdminService", none, none, proxy.AdminServiceOverrides{}, []string{"outbound"},
+		obs.ReportStreamValue, scc, proxy.LCMParameters{},
+		proxy.RoutingParameters{OverrideShardCount: scc.LocalShardCount, RoutingLocalShardCount: scc.RemoteShardCount, DirectionLabel: "outbound"},
+		noopLoggers{}, in.sm, in.lifetime)
+	return in
+}
+
+// all: the current instances and the replaced incarnations.
+func (w *GossipWorld) all() []*gInst {
+	return append(append([]*gInst{}, w.inst...), w.past...)
 }
 
 func (w *GossipWorld) task(name string, f func()) {
@@ -248,7 +274,7 @@ func (w *GossipWorld) release(in *gInst, cl *gClaim) {
 func probeMarker(id int) int64 { return int64(1000000 + id) }
 
 func (w *GossipWorld) drain() {
-	for _, in := range w.inst {
+	for _, in := range w.all() {
 		for _, sh := range w.shards() {
 			for _, cl := range in.history[sh] { // every claim's channels, also those of released claims
 				for {
@@ -355,9 +381,13 @@ func (w *GossipWorld) Actions() []simrt.Action {
 	for _, in := range w.inst {
 		in := in
 		if !in.started {
-			add("start:"+in.name, 8, false, func() {
+			nm := "start:" + in.name
+			if in.gen > 0 {
+				nm = fmt.Sprintf("start:%s.r%d", in.name, in.gen)
+			}
+			add(nm, 8, false, func() {
 				in.started = true
-				w.task("start:"+in.name, func() { _ = in.sm.Start(in.lifetime); in.startOK = true })
+				w.task(nm, func() { _ = in.sm.Start(in.lifetime); in.startOK = true })
 			})
 		}
 	}
@@ -411,7 +441,7 @@ func (w *GossipWorld) Actions() []simrt.Action {
 					// previous claim of that shard (on any instance) has completely returned, so
 					// "newest" is unambiguous both by registration and by announcement timestamp
 					busy := false
-					for _, o := range w.inst {
+					for _, o := range w.all() {
 						if oc := o.claims[sh]; oc != nil && !oc.ready && !o.left {
 							busy = true
 						}
@@ -442,6 +472,21 @@ func (w *GossipWorld) Actions() []simrt.Action {
 						cl.active = false
 					}
 					in.cancel()
+				})
+			}
+		}
+	}
+	// an instance that left and has shut its memberlist down is started again: same name, same
+	// addresses, a new process (empty tables, no shard)
+	if w.phase == 0 && w.cfg.Rejoin {
+		for i, in := range w.inst {
+			i, in := i, in
+			if in.left && in.gen == 0 && w.net.IsShutdown(in.name) {
+				add("rejoin:"+in.name, 3, false, func() {
+					w.faults["rejoin"]++
+					w.s.Log("instance %s is started again", in.name)
+					w.past = append(w.past, in)
+					w.inst[i] = w.newInst(i, 1)
 				})
 			}
 		}
@@ -566,7 +611,7 @@ func (w *GossipWorld) checkConvergence() {
 		var newestAt time.Duration = -1
 		var departedAt time.Duration = -1
 		nClaim := 0
-		for _, in := range w.inst {
+		for _, in := range w.all() {
 			for _, cl := range in.history[sh] {
 				if !cl.ready {
 					continue
@@ -618,8 +663,17 @@ func (w *GossipWorld) checkConvergence() {
 			}
 		}
 	}
-	for _, in := range w.inst {
+	for _, in := range w.all() {
 		if !in.left {
+			continue
+		}
+		back := false
+		for _, o := range w.liveInst() {
+			if o.name == in.name {
+				back = true // the name is a member again (a new process); what is said about it is judged above
+			}
+		}
+		if back {
 			continue
 		}
 		for _, o := range w.liveInst() {
